@@ -2953,7 +2953,15 @@ func (db *DB) Import(ctx context.Context, r io.Reader) error {
 		return err
 	}
 
-	return db.ApplyLTXNoLock(db.LTXPath(pos.TXID, pos.TXID), true)
+	ltxPath := db.LTXPath(pos.TXID, pos.TXID)
+	if err := db.ApplyLTXNoLock(ltxPath, true); err != nil {
+		// A failure once the database is being written is fatal. If we get
+		// here nothing has been applied: withdraw the transaction file so that
+		// the failed import is not applied by the recovery of the next start.
+		_ = db.os.Remove("IMPORT:LTX", ltxPath)
+		return err
+	}
+	return nil
 }
 
 // importToLTX reads a SQLite database and writes it to the next LTX file.
